@@ -22,9 +22,10 @@ def gp(rng):
         fs, stmts = orig(rng)
         if not any(stmt_nofield(s) for s in stmts): return fs, stmts
 import run; run.gen_program = gp
-stats = collections.Counter(); fails = collections.defaultdict(list)
-for seed in range(int(sys.argv[1]), int(sys.argv[2])):
-    run.run_one(seed, stats, fails)
-print(dict(stats))
-for k, v in sorted(fails.items(), key=lambda kv: -len(kv[1])):
-    print(len(v), k, v[:6])
+if __name__ == '__main__':
+    stats = collections.Counter(); fails = collections.defaultdict(list)
+    for seed in range(int(sys.argv[1]), int(sys.argv[2])):
+        run.run_one(seed, stats, fails)
+    print(dict(stats))
+    for k, v in sorted(fails.items(), key=lambda kv: -len(kv[1])):
+        print(len(v), k, v[:6])
